@@ -58,8 +58,10 @@ def get_page_tree_walk(prop="C17"):
     c.calls["os.path.basename"] = lambda eng, path, e, args, recv: SStr(BASENAME(eng.to_str(path, args[0])))
 
     def in_parent_copy(v0, k):
-        cs = v0.heap.list_get(SList(sel(H(v0, "copy_subdir"), v0.parent), "str"))
-        return z3.And(v0.parent != 0, z3.Contains(cs, z3.Unit(seq0(v0)[k])))
+        # (a sub-directory that the page of *this* directory lists in copy_subdir is copied verbatim, not rendered: the list consulted is the node's own, not the one of the
+        #  directory above - the first version of this contract said `parent` because the code did, see DESIGN 11.8)
+        cs = v0.heap.list_get(SList(sel(H(v0, "copy_subdir"), v0.node), "str"))
+        return z3.Contains(cs, z3.Unit(seq0(v0)[k]))
 
     def contrib_sub(v0, k):
         p = full(v0, k)
@@ -76,9 +78,9 @@ def get_page_tree_walk(prop="C17"):
     c.requires("names_are_not_empty", lambda v: z3.BoolVal(True))
     c.requires("lists_are_distinct", lambda v: z3.And(sel(H(v, "subpages"), v.node) != sel(H(v, "files"), v.node),
                                                        sel(H(v, "subpages"), v.node) != v.val("mergedfilelist").id, sel(H(v, "files"), v.node) != v.val("mergedfilelist").id,
-                                                       z3.Or(v.parent == 0, z3.And(sel(H(v, "copy_subdir"), v.parent) != sel(H(v, "files"), v.node),
-                                                                                   sel(H(v, "copy_subdir"), v.parent) != sel(H(v, "subpages"), v.node),
-                                                                                   sel(H(v, "copy_subdir"), v.parent) != v.val("mergedfilelist").id))))
+                                                       z3.And(sel(H(v, "copy_subdir"), v.node) != sel(H(v, "files"), v.node),
+                                                              sel(H(v, "copy_subdir"), v.node) != sel(H(v, "subpages"), v.node),
+                                                              sel(H(v, "copy_subdir"), v.node) != v.val("mergedfilelist").id)))
     jq = z3.Int("j!names")
     c.requires("entry_names_are_not_empty", lambda v: z3.ForAll([jq], z3.Implies(z3.And(0 <= jq, jq < z3.Length(seq0(v))), z3.Length(STR_OF(seq0(v)[jq])) > 0)))
 
@@ -96,8 +98,8 @@ def get_page_tree_walk(prop="C17"):
                           ("files_are_the_fold", lambda v: files_of(v, E(v)) == FILES(v.k)),
                           ("frame", lambda v: z3.And(v.it.seq == seq0(E(v)), v.topdir == E(v).topdir, v.node == E(v).node, v.parent == E(v).parent,
                                                      sel(H(v, "subpages"), v.node) == sel(H(E(v), "subpages"), E(v).node), sel(H(v, "files"), v.node) == sel(H(E(v), "files"), E(v).node),
-                                                     z3.Or(v.parent == 0, z3.And(sel(H(v, "copy_subdir"), v.parent) == sel(H(E(v), "copy_subdir"), E(v).parent),
-                                                           v.heap.list_get(SList(sel(H(v, "copy_subdir"), v.parent), "str")) == E(v).heap.list_get(SList(sel(H(E(v), "copy_subdir"), E(v).parent), "str"))))))],
+                                                     z3.And(sel(H(v, "copy_subdir"), v.node) == sel(H(E(v), "copy_subdir"), E(v).node),
+                                                            v.heap.list_get(SList(sel(H(v, "copy_subdir"), v.node), "str")) == E(v).heap.list_get(SList(sel(H(E(v), "copy_subdir"), E(v).node), "str")))))],
            unfold=unfold, variant=lambda v: z3.Length(v.it.seq) - v.k)
     c.post_facts = lambda v0: [SUBS(0) == subs_of(v0, v0), FILES(0) == files_of(v0, v0)]
 
